@@ -274,10 +274,11 @@ def run(tier, replay=None):
                 sprogs.append({'nodes': g.nodes, 'out': j, 'taps': []})
             # a merge of sorted shuffle streams that are longer than one read batch of the merging reader (128 rows):
             # the tear comes after the first batch of a stream has been merged
-            rows600 = [[k, 1] for k in range(300) for _ in range(2)]
+            rows600 = [[k, 1] for k in range(600) for _ in range(2)]
             rr2.shuffle(rows600)
             longp = {'nodes': [progs.N('const', nshard=2, rows=rows600), progs.N('reduce', **{'in': [0]}, f='sum')], 'out': 1, 'taps': []}
-            for b in rng.sample(range(1200, 5200), 12 if tier == 'quick' else 120):
+            # (a stream of this program is about 300 rows, 3 kB; its first batch of 128 rows ends near 1.3 kB)
+            for b in rng.sample(range(1400, 2900), 16 if tier == 'quick' else 150):
                 plans = [{'method': 'Worker.Read', 'ordinal': rng.choice([1, 2, 3, 4]), 'phase': 'mid', 'bytes': b}]
                 steps = [kills_step(plans), progs.step_run('r0', longp), kills_step([]), progs.step_scan('r0')]
                 tear.append(progs.scenario(100000 + len(tear) + 1, steps, exec_='bigmachine', interpose=True, loss=True, timeout_s=60, parallelism=3, machprocs=1))
